@@ -54,8 +54,9 @@ func judgeConservation(j *judgeCtx) {
 			startable++
 		}
 		j.r.probes[pbGatedQuiescence]++
-		if startable > 0 && infl < lim {
-			j.add("C03.b", seq, "quiescent on a running worker with %d startable jobs pending but only %d of %d worker slots busy: nothing will dispatch them without a further API call", startable, infl, lim)
+		// a pool goroutine whose acknowledgement is stalled in the backend still holds its slot
+		if startable > 0 && infl+c.Val2 < lim {
+			j.add("C03.b", seq, "quiescent on a running worker with %d startable jobs pending but only %d of %d worker slots busy (%d executing, %d in a stalled acknowledgement): nothing will dispatch them without a further API call", startable, infl+c.Val2, lim, infl, c.Val2)
 		}
 	}
 }
